@@ -1,0 +1,101 @@
+//go:build verif
+
+// Contracts for the Aspect-aware call tracers (comment-only file, compiled only
+// under the "verif" build tag; it adds no code). Syntax: /verif/DESIGN.md 3.1.3.
+package native
+
+// Tracer invariant (C19): the call stack always holds the frame of the transaction; a frame whose
+// join-point marker is set has at least one join-point frame (the running one is the last).
+//@ pred INV(t) = t != nil && len(t.callstack) >= 1 && (forall i uint64 :: i < uint64(len(t.callstack)) && t.callstack[i].joinPoint != 0 ==> len(t.callstack[i].JoinPoints) >= 1) && (forall i uint64 :: i < uint64(len(t.callstack)) && (t.callstack[i].Type == 241 || t.callstack[i].Type == 250) ==> t.callstack[i].To != nil)
+
+// dependencies (assumed): JSON encoding and ABI revert decoding return arbitrary fresh results
+//@ func encoding/json.Marshal
+//@   trusted
+//@   kind fresh
+//@ end
+//@ func github.com/ethereum/go-ethereum/accounts/abi.UnpackRevert
+//@   trusted
+//@   kind fresh
+//@ end
+//@ func errors.Is
+//@   trusted
+//@   kind pure
+//@ end
+
+//@ func (*tracers/native.callTracer).CaptureAspectEnter(t, joinpoint, from, to, aspectId, input, gas, value, execCtx)
+//@   verify
+//@   safety [C19]
+//@   requires inv: INV(t)
+//@   let top = t.callstack[len(t.callstack) - 1]
+//@   ensures inv [C19]: INV(t)
+//@   modifies tracers/native.callTracer.*, tracers/native.callFrame.*, tracers/native.aspectCallFrame.*, cell:common.Address, ghost:atomic:tracers/native.callTracer.interrupt
+//@ end
+
+// An Aspect exit completes the RUNNING Aspect frame - the last one of the current call frame - with its own gas
+// used, and leaves every earlier Aspect frame (e.g. another Aspect on the same join point) untouched.
+//@ func (*tracers/native.callTracer).CaptureAspectExit(t, joinpoint, result)
+//@   verify
+//@   safety [C19]
+//@   requires inv: INV(t) && result != nil
+//@   let top = t.callstack[len(t.callstack) - 1]
+//@   requires running [C19]: top.joinPoint == joinpoint && joinpoint != 0 && len(top.JoinPoints) >= 1 && top.JoinPoints[len(top.JoinPoints) - 1].Type == joinpoint
+//@   ensures inv [C19]: INV(t)
+//@   ensures marker-cleared [C19]: top.joinPoint == 0 && len(t.callstack) == old(len(t.callstack)) && len(top.JoinPoints) == old(len(top.JoinPoints))
+//@   ensures running-frame-completed [C19]: top.JoinPoints[len(top.JoinPoints) - 1].GasUsed == old(top.JoinPoints[len(top.JoinPoints) - 1].Gas) - result.Gas
+//@   ensures earlier-frames-untouched [C19]: forall i uint64 :: i + 1 < uint64(len(top.JoinPoints)) ==> top.JoinPoints[i].GasUsed == old(top.JoinPoints[i].GasUsed) && sameslice(top.JoinPoints[i].Output, old(top.JoinPoints[i].Output)) && top.JoinPoints[i].Error == old(top.JoinPoints[i].Error)
+//@   modifies tracers/native.callTracer.*, tracers/native.callFrame.*, tracers/native.aspectCallFrame.*, cell:common.Address, ghost:atomic:tracers/native.callTracer.interrupt
+//@ end
+
+//@ func (*tracers/native.callTracer).CaptureEnter
+//@   verify
+//@   safety [C19]
+//@   requires inv: INV(t)
+//@   ensures inv [C19]: INV(t)
+//@   modifies tracers/native.callTracer.*, tracers/native.callFrame.*, tracers/native.aspectCallFrame.*, cell:common.Address, ghost:atomic:tracers/native.callTracer.interrupt
+//@ end
+
+// A call exit pops one frame and files it under whoever issued it: the running Aspect frame if the parent's
+// marker is set, the parent call frame otherwise.
+//@ func (*tracers/native.callTracer).CaptureExit(t, output, gasUsed, err)
+//@   verify
+//@   safety [C19]
+//@   requires inv: INV(t)
+//@   let psize = old(len(t.callstack)) - 2
+//@   let parent = t.callstack[psize]
+//@   let popped = !t.config.OnlyTopCall && old(len(t.callstack)) > 1
+//@   ensures inv [C19]: INV(t)
+//@   ensures pops-one [C19]: (popped ==> len(t.callstack) == old(len(t.callstack)) - 1) && (!popped ==> len(t.callstack) == old(len(t.callstack)))
+//@   ensures filed-call-has-target [C19]: popped && old(parent.joinPoint) == 0 && (parent.Calls[len(parent.Calls) - 1].Type == 241 || parent.Calls[len(parent.Calls) - 1].Type == 250) ==> parent.Calls[len(parent.Calls) - 1].To != nil
+//@   ensures filed-under-issuer [C19]: popped ==> (old(parent.joinPoint) != 0 ==> len(parent.Calls) == old(len(parent.Calls)) && len(parent.JoinPoints) == old(len(parent.JoinPoints)) && len(parent.JoinPoints[len(parent.JoinPoints) - 1].Calls) == old(len(parent.JoinPoints[len(parent.JoinPoints) - 1].Calls)) + 1) && (old(parent.joinPoint) == 0 ==> len(parent.Calls) == old(len(parent.Calls)) + 1)
+//@   modifies tracers/native.callTracer.*, tracers/native.callFrame.*, tracers/native.aspectCallFrame.*, cell:common.Address, ghost:atomic:tracers/native.callTracer.interrupt
+//@ end
+
+//@ func (*tracers/native.callTracer).CaptureStart
+//@   verify
+//@   safety [C19]
+//@   requires inv: INV(t)
+//@   ensures inv [C19]: INV(t)
+//@   modifies tracers/native.callTracer.*, tracers/native.callFrame.*, tracers/native.aspectCallFrame.*, cell:common.Address, ghost:atomic:tracers/native.callTracer.interrupt
+//@ end
+
+//@ func (*tracers/native.callTracer).CaptureEnd
+//@   verify
+//@   safety [C19]
+//@   requires inv: INV(t)
+//@   ensures inv [C19]: INV(t)
+//@   modifies tracers/native.callTracer.*, tracers/native.callFrame.*, tracers/native.aspectCallFrame.*, cell:common.Address, ghost:atomic:tracers/native.callTracer.interrupt
+//@ end
+
+//@ func (*tracers/native.flatCallTracer).CaptureExit
+//@   verify
+//@   safety [C19]
+//@   requires inv: t != nil && t.tracer != nil && INV(t.tracer)
+//@   modifies *
+//@ end
+
+//@ func (*tracers/native.flatCallTracer).CaptureEnter
+//@   verify
+//@   safety [C19]
+//@   requires inv: t != nil && t.tracer != nil && INV(t.tracer)
+//@   modifies *
+//@ end
